@@ -173,7 +173,7 @@ static int runnable (struct fiber *f) {
 static void tick_to (int64_t t) {
 	if (t > now_ns) { now_ns = t; write_epoch++; vf_log_env ("tick %lld", (long long) t); if (sched_len < (int) (sizeof (sched_rec) / sizeof (sched_rec[0]))) { sched_rec[sched_len++] = -1; } }
 }
-static int pct_points[8]; static int pct_n;
+static int pct_points[8]; static int pct_n; static int consec;
 
 int vf_run (void) {
 	int i;
@@ -215,8 +215,9 @@ int vf_run (void) {
 			for (i = 0; i != pct_n; i++) { if (pct_points[i] == steps && cur >= 0) { fibers[cur].prio = pct_n - i; } }
 			for (i = 0; i != nrun; i++) { if (best < 0 || fibers[run[i]].prio > fibers[best].prio) { best = run[i]; } }
 			pick = best;
-			/* a parked/spinning high-priority fiber must not starve the others */
-			if (fibers[pick].quiet_ops > 6) { fibers[pick].prio = (int) (vf_rand () % 1000); }
+			/* a spinning high-priority fiber must not starve the others: demote it after a long run */
+			if (pick == cur) { consec++; } else { consec = 0; }
+			if (nrun > 1 && (fibers[pick].quiet_ops > 6 || consec > 60)) { fibers[pick].prio = (int) (vf_rand () % 1000); consec = 0; }
 		} else {
 			int stick = cfg.strategy == 1 ? 4 : cfg.strategy == 2 ? 16 : 1;
 			if (cur >= 0 && runnable (&fibers[cur]) && (vf_rand () % stick) != 0) { pick = cur; }
